@@ -81,7 +81,7 @@ def c01_2(cx):
                     [r"::max\(", r"^\$%d$" % darg, r"Durability::(MAX|NEVER_CHANGE|HIGH)"], "%s: durability := min(self.durability, d)" % name, s)
         st = cx.stores(b, r"^\$1\.changed_at$")
         if name == "add_read_simple":
-            c = cx.one(b.calls(AQ + "add_changed_at$"), "add_changed_at call")
+            c = cx.one_call(b, AQ + "add_changed_at$", "add_changed_at call")
             cx.flow(b, cx.arg(c, 1), [r"^\$%d$" % rarg], [r"^const:", r"Revision::start"], "add_read_simple forwards the revision to add_changed_at", c)
             cx.must_call(b, AQ + "add_changed_at$")
             b2 = cx.fn(AQ + "add_changed_at$")
@@ -115,14 +115,14 @@ def c01_3(cx):
     AQ = r"^active_query::ActiveQuery::"
     never = Cmp(r"^\$3$", "==", r"Durability::NEVER_CHANGE", desc="durability == NEVER_CHANGE")
     b = cx.fn(AQ + "add_read$")
-    ins = cx.one(b.calls(r"^indexmap::IndexSet::<T, S>::insert$"), "input_outputs.insert in add_read")
+    ins = cx.one_call(b, r"^indexmap::IndexSet::<T, S>::insert$", "input_outputs.insert in add_read")
     cx.flow(b, cx.arg(ins, 1), [r"^zalsa_local::QueryEdge::input\(\$2\)$"], [r"QueryEdge::output"], "edge inserted is QueryEdge::input(input)", ins)
     cx.skipped_only_if(b, ins, never, "add_read: edge skipped only if durability == NEVER_CHANGE")
     cx.skipped_only_if(b, ins, CallIs(r"^cycle::CycleHeads::is_empty$", True, [r"^\$5$"]), "add_read: edge skipped only if cycle_heads.is_empty()")
     if "accumulator" in cx.facts.features:
         cx.skipped_only_if(b, ins, CallIs(r"InputAccumulatedValues::is_any$", False), "add_read: edge skipped only if !accumulated_inputs.is_any()")
     b = cx.fn(AQ + "add_read_simple$")
-    ins = cx.one(b.calls(r"^indexmap::IndexSet::<T, S>::insert$"), "input_outputs.insert in add_read_simple")
+    ins = cx.one_call(b, r"^indexmap::IndexSet::<T, S>::insert$", "input_outputs.insert in add_read_simple")
     cx.flow(b, cx.arg(ins, 1), [r"^zalsa_local::QueryEdge::input\(\$2\)$"], [r"QueryEdge::output"], "edge inserted is QueryEdge::input(input)", ins)
     cx.skipped_only_if(b, ins, never, "add_read_simple: edge skipped only if durability == NEVER_CHANGE")
 
@@ -137,7 +137,7 @@ def c01_1(cx):
     # input field
     b = cx.fn(r"^input::IngredientImpl::<C>::field$")
     cx.must_call(b, r"^zalsa_local::ZalsaLocal::report_tracked_read_simple$")
-    c = cx.one(b.calls(r"^zalsa_local::ZalsaLocal::report_tracked_read_simple$"), "report call in input field")
+    c = cx.one_call(b, r"^zalsa_local::ZalsaLocal::report_tracked_read_simple$", "report call in input field")
     a = cx.args(c)
     val = r"input::IngredientImpl::<C>::data\(\$2, <Struct as id::AsId>::as_id\(\$4\)\)"
     cx.flow(b, a[1], [r"^key::DatabaseKeyIndex::new\(zalsa::IngredientIndex::successor\(\$1\.ingredient_index, \$5\), <Struct as id::AsId>::as_id\(\$4\)\)$"], [r"successor\(\$1\.ingredient_index, const:", r"DatabaseKeyIndex::new\(\$1\.ingredient_index,"], "key = (field ingredient of field_index, id)", c)
@@ -147,7 +147,7 @@ def c01_1(cx):
     # tracked field
     b = cx.fn(r"^tracked_struct::IngredientImpl::<C>::tracked_field$")
     cx.must_call(b, r"^zalsa_local::ZalsaLocal::report_tracked_read_simple$")
-    c = cx.one(b.calls(r"^zalsa_local::ZalsaLocal::report_tracked_read_simple$"), "report call in tracked_field")
+    c = cx.one_call(b, r"^zalsa_local::ZalsaLocal::report_tracked_read_simple$", "report call in tracked_field")
     a = cx.args(c)
     cx.flow(b, a[1], [r"^key::DatabaseKeyIndex::new\(zalsa::IngredientIndex::successor\(\$1\.ingredient_index, \$5\), <Struct<'_> as id::AsId>::as_id\(\$4\)\)$", r"^key::DatabaseKeyIndex::new\(zalsa::IngredientIndex::successor\(\$1\.ingredient_index, \$5\), .*as_id\(\$4\)\)$"],
             [r"successor\(\$1\.ingredient_index, const:", r"DatabaseKeyIndex::new\(\$1\.ingredient_index,"], "key = (tracked-field ingredient of relative_tracked_index, id)", c)
@@ -156,7 +156,7 @@ def c01_1(cx):
     # function fetch
     b = cx.fn(F + r"fetch::<impl function::IngredientImpl<C>>::fetch$")
     cx.must_call(b, r"^zalsa_local::ZalsaLocal::report_tracked_read$")
-    c = cx.one(b.calls(r"^zalsa_local::ZalsaLocal::report_tracked_read$"), "report call in fetch")
+    c = cx.one_call(b, r"^zalsa_local::ZalsaLocal::report_tracked_read$", "report call in fetch")
     a = cx.args(c)
     memo = r"function::fetch::<impl function::IngredientImpl<C>>::refresh_memo\(\$1, \$2, \$3, \$4, \$5\)"
     cx.flow(b, a[1], [r"^function::IngredientImpl::<C>::database_key_index\(\$1, \$5\)$"], [], "key = this function's key for id", c)
@@ -168,7 +168,7 @@ def c01_1(cx):
     for rep, target, n in (("report_tracked_read", "add_read", 7 if "accumulator" in cx.facts.features else 5), ("report_tracked_read_simple", "add_read_simple", 4), ("report_tracked_read_revision", "add_changed_at", 2), ("report_untracked_read", "add_untracked_read", 2)):
         b = cx.fn(ZL + rep + "$")
         cb = cx.closure_passed_to(b, ZL + r"with_query_stack_unchecked_mut$")
-        c = cx.one(cb.calls(r"^active_query::ActiveQuery::" + target + "$"), "%s call inside %s" % (target, rep))
+        c = cx.one_call(cb, r"^active_query::ActiveQuery::" + target + "$", "%s call inside %s" % (target, rep))
         # captured values: closure env field i is parent's $(i+2)
         cl = None
         for s in b.aggregates(r".*"):
@@ -183,7 +183,7 @@ def c01_1(cx):
     # untracked read entry points
     b = cx.fn(r"^database::Database::report_untracked_read$")
     cx.must_call(b, ZL + r"report_untracked_read$")
-    c = cx.one(b.calls(ZL + r"report_untracked_read$"), "untracked read report")
+    c = cx.one_call(b, ZL + r"report_untracked_read$", "untracked read report")
     cx.flow(b, cx.arg(c, 1), [r"^zalsa::Zalsa::current_revision\("], [r"^const:", r"Revision::start"], "untracked read is stamped with the current revision", c)
 
 
@@ -221,7 +221,7 @@ def c01_4b(cx):
                       (r"^Option::Some\{0: function::fetch::<impl function::IngredientImpl<C>>::fetch_cold_cycle\(", [], "Some(fetch_cold_cycle(..))")],
               [r"^Option::None\{\}$"], "fetch_cold")
     # precision: execute only if (no memo) or (no value) or (!verify)
-    ex = cx.one(b.calls(F + r"execute::<impl function::IngredientImpl<C>>::execute$"), "execute call in fetch_cold")
+    ex = cx.one_call(b, F + r"execute::<impl function::IngredientImpl<C>>::execute$", "execute call in fetch_cold")
     with cx.only("C03"):
       cx.only_if_any(b, ex, [VariantIn(memo + r"$", {"None"}, desc="no old memo"), VariantIn(memo + r"(@Some\.0|\?)\.value$", {"None"}, desc="old memo has no value"),
                            CallIs(MH + r"verify_memo$", False, [memo + r"(@Some\.0|\?)\.header$"], desc="!verify_memo")], "execute reached only if no memo / no value / !verify_memo")
@@ -279,7 +279,7 @@ def c01_4d(cx):
             raise Inconclusive("validate_may_be_provisional: unexpected return def %r" % o[:120])
     cx.require(n >= 2, "validate_may_be_provisional: expected >= 2 truthy return defs, found %d" % n)
     for callee in ("validate_provisional", "validate_same_iteration"):
-        for s in cx.sites(v.calls(r"^function::maybe_changed_after::%s$" % callee), 1, callee + " call"):
+        for s in cx.some_calls(v, r"^function::maybe_changed_after::%s$" % callee, 1, callee + " call"):
             cx.only_if(v, s, same, "%s is consulted only in the same cancellation epoch" % callee)
 
 
@@ -292,13 +292,13 @@ def c01_4e(cx):
     nonprov = CallIs(r"MemoHeader::may_be_provisional$", False, [r"^\$1$"], desc="!self.may_be_provisional()")
     edges_call = r"^function::maybe_changed_after::deep_verify_edges\(\$2, function::sync::ClaimGuard::<'me>::zalsa\(\$3\), \$1\.revisions, revision::AtomicRevision::load\(\$1\.verified_at\), function::memo::MemoHeader::origin\(\$1\)@Derived\.0, function::sync::ClaimGuard::<'me>::database_key_index\(\$3\)\)$"
     ret_cases(cx, b, [(edges_call, [derived, nonprov], "deep_verify_edges(db, zalsa, &self.revisions, verified_at, edges, key)")], [r"^function::maybe_changed_after::VerifyResult::changed\(\)$", r"^VerifyResult::Changed\{\}$"], "deep_verify_memo")
-    de = cx.one(b.calls(r"^function::maybe_changed_after::deep_verify_edges$"), "deep_verify_edges call")
+    de = cx.one_call(b, r"^function::maybe_changed_after::deep_verify_edges$", "deep_verify_edges call")
     # not reached for Panic-strategy cycle participants
     eng = OnlyIf(cx.facts, b)
     panic = Cmp(r"^\$4$", "!=", r"CycleRecoveryStrategy::Panic", desc="strategy != Panic")
     notpart = CallIs(r"MemoHeader::was_cycle_participant$", False, [r"^\$1$"], desc="!was_cycle_participant()")
     cx.only_if_any(b, de, [panic, notpart], "deep_verify_edges reached only if !(strategy == Panic && was_cycle_participant)")
-    for s in cx.sites(b.calls(r"MemoHeader::mark_as_verified$"), 1, "mark_as_verified in deep_verify_memo"):
+    for s in cx.some_calls(b, r"MemoHeader::mark_as_verified$", 1, "mark_as_verified in deep_verify_memo"):
         cx.only_if(b, s, CallIs(r"VerifyResult::is_unchanged$", True, [r"deep_verify_edges\("], desc="deep_verify_edges(..).is_unchanged()"), "mark_as_verified only after an Unchanged deep verification")
     # precision (C03.6): the Changed exits are exactly the listed causes
     ch = b.calls(r"^function::maybe_changed_after::VerifyResult::changed$")
@@ -314,12 +314,12 @@ def c01_4e(cx):
 def c01_5(cx):
     """deep_verify_edges iterates the stored edges forward, returns Changed as soon as an Input edge's maybe_changed_after(db, zalsa, old_verified_at) is Changed, never returns Changed for Output edges, marks Output edges validated, returns Unchanged when the loop completes."""
     b = cx.fn(r"^function::maybe_changed_after::deep_verify_edges$")
-    it = cx.one(b.calls(r"^std::iter::IntoIterator::into_iter$"), "edge iterator construction")
+    it = cx.one_call(b, r"^std::iter::IntoIterator::into_iter$", "edge iterator construction")
     cx.flow(b, cx.arg(it, 0), [r"^\$5$"], [r"rev\("], "iterates the stored edges (no .rev())", it)
     cx.check(not b.calls(r"^std::iter::Iterator::rev$|DoubleEndedIterator::next_back$"), "no reverse iteration in deep_verify_edges", it, key="no-rev")
-    nx = cx.one(b.calls(r"^std::iter::Iterator::next$"), "iterator next")
+    nx = cx.one_call(b, r"^std::iter::Iterator::next$", "iterator next")
     edge = r"<QueryEdgeIter as std::iter::Iterator>::next\(.*\)@Some\.0"
-    mca = cx.one(b.calls(r"^key::DatabaseKeyIndex::maybe_changed_after$"), "input maybe_changed_after call")
+    mca = cx.one_call(b, r"^key::DatabaseKeyIndex::maybe_changed_after$", "input maybe_changed_after call")
     a = cx.args(mca)
     cx.flow(b, a[0], [r"^zalsa_local::QueryEdge::key\(" + edge + r"\)$"], [], "verifies the edge's own key", mca)
     cx.flow(b, a[3], [r"^\$4$"], [r"current_revision", r"^const:"], "against the OLD memo's verified_at", mca)
@@ -327,7 +327,7 @@ def c01_5(cx):
     cx.only_if(b, mca, VariantIn(kind, {"Input"}), "maybe_changed_after is asked for Input edges")
     res = r"^key::DatabaseKeyIndex::maybe_changed_after\("
     changed_in = VariantIn(res, {"Changed"}, desc="input_result is Changed")
-    ch = cx.sites(b.calls(r"^function::maybe_changed_after::VerifyResult::changed$"), 1, "changed() in deep_verify_edges")
+    ch = cx.some_calls(b, r"^function::maybe_changed_after::VerifyResult::changed$", 1, "changed() in deep_verify_edges")
     with cx.only("C03"):
         for s in ch:
             cx.only_if(b, s, changed_in, "Changed only because an input edge reported Changed (precision)")
@@ -338,12 +338,12 @@ def c01_5(cx):
     ok_edges = eng.establishing_edges(unch)
     # from the block after mca, reaching `next` again or the final result must cross an Unchanged edge
     after = [s for s, _ in b.succs(mca.bb)]
-    fin = cx.sites(b.calls(r"VerifyResult::unchanged_with_accumulated$"), 1, "final unchanged_with_accumulated")
+    fin = cx.some_calls(b, r"VerifyResult::unchanged_with_accumulated$", 1, "final unchanged_with_accumulated")
     for a0 in after:
         reach = b.reachable(a0, "normal", cut_edges=ok_edges, cut_blocks={c.bb for c in ch})
         cx.check(nx.bb not in reach and all(f.bb not in reach for f in fin), "after an input edge reports Changed no further edge is examined and Unchanged is not returned", mca,
                  {"reach_without_unchanged_edge": sorted(reach)[:20]}, key="changed-is-final")
-    mv = cx.one(b.calls(r"^key::DatabaseKeyIndex::mark_validated_output$"), "mark_validated_output call")
+    mv = cx.one_call(b, r"^key::DatabaseKeyIndex::mark_validated_output$", "mark_validated_output call")
     cx.only_if(b, mv, VariantIn(kind, {"Output"}), "outputs are marked validated in the Output arm")
     cx.flow(b, cx.arg(mv, 0), [r"^zalsa_local::QueryEdge::key\(" + edge + r"\)$"], [], "marks the edge's own key", mv)
     ret_cases(cx, b, [(r"^function::maybe_changed_after::VerifyResult::unchanged_with_accumulated\(", [VariantIn(r"Iterator>::next\(", {"None"}, desc="iterator exhausted")], "unchanged_with_accumulated(inputs)")],
@@ -360,7 +360,7 @@ def c01_6(cx):
     for path, stored in ((r"^<input::input_field::FieldIngredientImpl<C> as ingredient::Ingredient>::maybe_changed_after$", r"\.revisions\[\$1\.field_index\]$"),
                          (r"^<tracked_struct::tracked_field::FieldIngredientImpl<C> as ingredient::Ingredient>::maybe_changed_after$", r"load\(.*\.revisions\[\$1\.field_index\]\)$")):
         b = cx.fn(path)
-        c = cx.one(b.calls(r"VerifyResult::changed_if$"), "changed_if call")
+        c = cx.one_call(b, r"VerifyResult::changed_if$", "changed_if call")
         eng = OnlyIf(cx.facts, b)
         gt = Cmp(stored, ">", r"^\$5$", desc="stored revision > revision")
         le = Cmp(stored, "<=", r"^\$5$", desc="stored revision <= revision")
@@ -375,29 +375,29 @@ def c01_6(cx):
     gen_gt = Cmp(r"id::Id::generation\(.*metadata.*\.id\)$", ">", r"^id::Id::generation\(\$4\)$", desc="slot generation > requested generation")
     gen_le = Cmp(r"id::Id::generation\(.*metadata.*\.id\)$", "<=", r"^id::Id::generation\(\$4\)$", desc="slot generation <= requested generation")
     with cx.only("C03"):
-        for s in cx.sites(b.calls(r"VerifyResult::changed$"), 1, "changed() in interned maybe_changed_after"):
+        for s in cx.some_calls(b, r"VerifyResult::changed$", 1, "changed() in interned maybe_changed_after"):
             cx.only_if(b, s, gen_gt, "interned: Changed only if the slot was reused (generation increased)")
-    for s in cx.sites(b.calls(r"VerifyResult::unchanged$"), 1, "unchanged() in interned maybe_changed_after"):
+    for s in cx.some_calls(b, r"VerifyResult::unchanged$", 1, "unchanged() in interned maybe_changed_after"):
         cx.only_if(b, s, gen_le, "interned: Unchanged only if the generation did not increase")
     # function ingredient: hot / cold verified / after re-execution
     hot = cx.fn(MH + r"maybe_changed_after_hot$")
     gt = Cmp(r"^\$1\.revisions\.changed_at$", ">", r"^\$4$", desc="changed_at > revision")
     le = Cmp(r"^\$1\.revisions\.changed_at$", "<=", r"^\$4$", desc="changed_at <= revision")
-    for s in cx.sites(hot.calls(r"VerifyResult::unchanged_for_memo$"), 1, "unchanged_for_memo in hot path"):
+    for s in cx.some_calls(hot, r"VerifyResult::unchanged_for_memo$", 1, "unchanged_for_memo in hot path"):
         cx.only_if(hot, s, le, "hot: Unchanged only if changed_at <= revision")
         cx.only_if(hot, s, CallIs(r"ShallowUpdate::yes$", True), "hot: a verdict only for shallow-verified memos")
         cx.only_if(hot, s, CallIs(r"MemoHeader::may_be_provisional$", False, [r"^\$1$"]), "hot: a verdict only for final memos")
     with cx.only("C03"):
-        for s in cx.sites(hot.calls(r"VerifyResult::changed$"), 1, "changed in hot path"):
+        for s in cx.some_calls(hot, r"VerifyResult::changed$", 1, "changed in hot path"):
             cx.only_if(hot, s, gt, "hot: Changed only if changed_at > revision (precision)")
     inner = cx.fn(F + r"maybe_changed_after::<impl function::IngredientImpl<C>>::maybe_changed_after_cold::inner$")
     oh = r"ErasedMemo::<'a>::header\(.*\)\.revisions\.changed_at$|header\(.*\)\.revisions\.changed_at$"
-    for s in cx.sites(inner.calls(r"VerifyResult::unchanged_for_memo$"), 1, "unchanged_for_memo in cold inner"):
+    for s in cx.some_calls(inner, r"VerifyResult::unchanged_for_memo$", 1, "unchanged_for_memo in cold inner"):
         cx.only_if(inner, s, Cmp(oh, "<=", r"^\$7$", desc="old changed_at <= revision"), "cold: Unchanged only if changed_at <= revision")
         cx.only_if(inner, s, CallIs(MH + r"verify_memo$", True), "cold: Unchanged only after verify_memo")
     cold = cx.fn(F + r"maybe_changed_after::<impl function::IngredientImpl<C>>::maybe_changed_after_cold$")
     newc = r"execute\(.*\)\?\.header\.revisions\.changed_at$"
-    for s in cx.sites(cold.calls(r"VerifyResult::unchanged_for_memo$"), 1, "unchanged_for_memo after re-execution"):
+    for s in cx.some_calls(cold, r"VerifyResult::unchanged_for_memo$", 1, "unchanged_for_memo after re-execution"):
         cx.only_if(cold, s, Cmp(newc, "<=", r"^\$6$", desc="new changed_at <= revision"), "after re-execution: Unchanged only if changed_at <= revision")
         cx.only_if(cold, s, CallIs(r"MemoHeader::may_be_provisional$", False, [r"execute\(.*\)\?\.header$"]), "after re-execution: Unchanged only if the new memo is final")
 
@@ -417,7 +417,7 @@ def c03_1(cx):
         else:
             cx.check(True, "execute call site in a verification-failed continuation", s, key="execute-caller")
     cold = cx.fn(allowed[1])
-    ex = cx.one(cold.calls(F + r"execute::<impl function::IngredientImpl<C>>::execute$"), "execute in maybe_changed_after_cold")
+    ex = cx.one_call(cold, F + r"execute::<impl function::IngredientImpl<C>>::execute$", "execute in maybe_changed_after_cold")
     cx.only_if(cold, ex, VariantIn(r"inner\(", {"Reexecute"}, desc="inner(..) is Reexecute"), "re-execution only on ColdResult::Reexecute")
     cx.only_if(cold, ex, VariantIn(r"downcast\(.*\)\.value$", {"Some"}, desc="old_memo.value is Some"), "a value-less (evicted) old memo reports Changed instead of executing")
     inner = cx.fn(allowed[1][:-1] + r"::inner$")
